@@ -354,6 +354,16 @@ def stream_pygroup(ctx: Ctx) -> Stream:
 # program generator (common language of CPython and grammar.lark)
 
 
+# What the generator leaves out, and why each omission is OUTSIDE the property's quantifier ("accepted by both CPython and
+# grammar.lark") or beyond what CPython's ast can tell — everything else that differs is generated and raised (MARK_WHAT):
+#   * rejected by grammar.lark: trailing comments, `;`, bare `raise`/`except`/`yield` statements, while/for-else, try-else/finally,
+#     several `if`s or an `if` between the `for`s of a comprehension, keyword-only / positional-only parameters, `f(*a, b)`, `**`,
+#     `//`, `@`, `:=`, `a[1:2, 3]`, implicit string concatenation, set displays, `import x`, defs without `->`;
+#   * rejected by CPython: `<>`, keyword-shaped identifiers (`x = is`), two operands in a row (`True andy`, which lark splits into
+#     `True and y` — see keyword_split_hazard), keyword arguments before positional ones;
+#   * not distinguishable in CPython's ast (tranp's tree is finer, nothing to compare against): `else:` holding exactly one `if`
+#     vs `elif`; `a[(1, 2)]` vs `a[1, 2]` (generated, compared modulo the identification); redundant parentheses (generated,
+#     `Group` is transparent in the canon); the order between positional and keyword arguments of a call.
 class Gen:
 	"""Random programs of the common language, as source text. Structure is random; layout (tabs/spaces, blank lines, redundant
 	parentheses, line breaks inside brackets, comment lines) is random too. `conventional=True` keeps to the coding
@@ -1732,7 +1742,7 @@ def run(ctx: Ctx) -> int:
 		assumptions=[
 			'lark returns a derivation of grammar.lark (LALR construction and PythonIndenter are not modelled)',
 			'DeclableMatcher.is_decl_class_var: `endswith` on the joined parent path is modelled as equality of its last two tags (no tag of the grammar ends with another tag after a dot)',
-			'the common language excludes what grammar.lark does not have (see harness Gen) and `else:` blocks consisting of exactly one `if` (CPython cannot distinguish them from `elif`)',
+			'the generated language leaves out only what one of the two parsers rejects or what CPython\'s ast cannot distinguish (list above class Gen); every construct both accept and read differently is generated and raised under its own key (MARK_WHAT)',
 		],
 		trusted=['CPython ast as the grouping oracle; pyTable transcribed from Grammar/python.gram, validated by stream pygroup',
 			'EntryOfLark exposes the lark tree faithfully (C15)'])
